@@ -16,3 +16,4 @@ def load(name):
         _CACHE[name] = m.unit(arg) if arg is not None else m.unit()
     return _CACHE[name]
 REGISTRY["ark_encoding"] = ("arkcurve", "encoding")
+REGISTRY["ark_ops"] = ("arkcurve", "ops")
